@@ -45,6 +45,7 @@ class Contract:
         self.qualname = qualname
         self.props = list(props)
         self.param_types = collections.OrderedDict()
+        self.free_types = collections.OrderedDict()
         self.ret = None
         self.requires_ = []
         self.ensures_ = []         # (name, fn, props)
@@ -74,6 +75,12 @@ class Contract:
     # -- DSL -------------------------------------------------------------
     def params(c, **tys):
         c.param_types.update(tys)
+        return c
+
+    def free(c, **tys):
+        """free variables of a nested function (its closure environment): symbolic values of the declared types, visible
+        to the body through the enclosing scope and to clauses as s.<name>"""
+        c.free_types.update(tys)
         return c
 
     def returns(self, ty):
@@ -289,6 +296,11 @@ class ClauseEnv:
     @property
     def old(self):
         return ClauseEnv(self._it, self._fr, {}, getattr(self._it, 'entry_heap', {}), self._entry, {})
+
+    def before(self, ordinal):
+        """the state in which loop `ordinal` was entered on this path (locals and heap)"""
+        snap, heap = self._fr.loop_entry[ordinal]
+        return ClauseEnv(self._it, self._fr, {}, heap, {}, snap)
 
     def with_heap(self, hv):
         h = dict(self._heap)
@@ -556,6 +568,16 @@ def verify_function(repo, con, schema, lib, registry=None, engine_cls=VEngine, n
         if cls is not None and params and params[0] in ('self', 'cls'):
             fr.self_value = bound[params[0]]
         it.entry_args = dict(bound)
+        if con.free_types:
+            outer = Frame(None, module, cls)
+            for nm, ty in con.free_types.items():
+                v = ty.fresh(ctx, 'free!' + nm)
+                outer.locals[nm] = v
+                it.entry_args[nm] = v
+                if nm == 'self':
+                    outer.self_value = v
+                    fr.self_value = v
+            fr.parent = outer
         if con.setup is not None:
             con.setup(it, fr, bound)
         env0 = ClauseEnv(it, fr, {})
@@ -567,6 +589,7 @@ def verify_function(repo, con, schema, lib, registry=None, engine_cls=VEngine, n
         if is_gen:
             def sink(v, e):
                 yields.append(v)
+                ctx.yield_count = getattr(ctx, 'yield_count', 0) + 1
                 for name, fn in con.yield_ensures_:
                     ctx.oblige('yield', name, fn(ClauseEnv(it, fr, {}), view(it, v, ctx.heap)), {'line': e.lineno})
             fr.yield_sink = sink
